@@ -914,9 +914,50 @@ Proof.
   apply IH. exact HR'.
 Qed.
 
-Lemma model_trace_holds : forall cfg ops,
+Lemma model_trace_holds_ns : forall cfg ops, is_shared cfg = false ->
   exists obs, run cfg ops = Some obs /\ holds_core cfg ops obs = true.
 Proof.
-  intros cfg ops. eexists. split; [reflexivity|]. unfold holds_core, clauses.
-  apply (bridge (nsrv_of cfg) ops init mon_init 0 RI_init).
+  intros cfg ops Hsh. unfold run, holds_core, clauses. rewrite Hsh. eexists. split; [reflexivity|].
+  unfold clauses_ns. apply (bridge (nsrv_of cfg) ops init mon_init 0 RI_init).
+Qed.
+
+(* ---------- shared fallback channel (cfg [2; 1]) ---------- *)
+
+Lemma send_subs s o c x : subs (sv (fst (send s o c)) x) = subs (sv s x) /\ open (sv (fst (send s o c)) x) = open (sv s x).
+Proof.
+  unfold send. destruct (ssender (sv s c) =? 1); [tauto|].
+  destruct (ssender (sv s c) =? 2); [|tauto]. cbn [fst sv]. unfold updv.
+  destruct (x =? c) eqn:E; [apply Z.eqb_eq in E; subst; cbn; tauto|tauto].
+Qed.
+
+(* "reverts to it, unsubscribes and releases all lower-priority servers", when the lower-priority
+   channel is shared with another authority and therefore stays up: after the step the reference is
+   released and no resource that was subscribed there on behalf of this authority is still in the
+   shared server's subscription (the other authority's names stay) *)
+Lemma revert_sh_unsubscribes s v rs s' o :
+  open (sv s 0) = true -> slive (sv s 0) = true -> active s = 1 -> open (sv s 1) = true ->
+  step_sh s (AResp 0 v rs) = (s', o) ->
+  open (sv s' 1) = false /\ active s' = 0 /\
+  (forall n, In n all_names -> mem 1 (chans (rq s n)) = true -> mem n (subs (sv s' 1)) = false) /\
+  (forall n, mem n (subs (sv s 1)) = true -> (forall k, In k all_names -> mem 1 (chans (rq s k)) = true -> k <> n) ->
+             mem n (subs (sv s' 1)) = true).
+Proof.
+  intros Ho0 Hl0 Ha Ho1 Hs. unfold step_sh, tr in Hs. rewrite Ho0, Hl0 in Hs. cbn [orb andb negb] in Hs.
+  cbn [active sv] in Hs. rewrite Ha in Hs. cbn [Z.ltb Z.compare orb andb] in Hs.
+  assert (E1: open (updv (sv s) 0 (mkV true true (ssender (sv s 0)) true (subs (sv s 0))) 1) = true).
+  { unfold updv. cbn. exact Ho1. }
+  rewrite E1 in Hs.
+  match type of Hs with context [send ?SA ?ACK 1] => set (sa := SA) in *; set (ack := ACK) in * end.
+  pose proof (send_subs sa ack 1 1) as [Hsub Hop]. pose proof (send_rest sa ack 1) as [Hrq Hact].
+  destruct (send sa ack 1) as [s1 o1]. cbn [fst] in *. inversion Hs; subst s' o; clear Hs. cbn [sv active].
+  rewrite Hop, Hact, Hsub. unfold sa. cbn [sv active]. rewrite updv_same. cbn [open subs].
+  split; [reflexivity|]. split; [reflexivity|]. unfold updv. cbn [Z.eqb rq].
+  set (gone := filter (fun n => mem 1 (chans (rq s n))) all_names).
+  split.
+  - intros n Hn Hc. rewrite mem_filter.
+    assert (Hg: mem n gone = true). { unfold gone. rewrite mem_filter, Hc. apply mem_in in Hn. rewrite Hn. reflexivity. }
+    rewrite Hg. cbn. apply andb_false_r.
+  - intros n Hn Hk. rewrite mem_filter, Hn. cbn [andb].
+    destruct (mem n gone) eqn:Hg; [|reflexivity]. exfalso. unfold gone in Hg. rewrite mem_filter in Hg.
+    apply andb_true_iff in Hg. destruct Hg as [G1 G2]. apply mem_in in G1. exact (Hk n G1 G2 eq_refl).
 Qed.
